@@ -61,6 +61,7 @@ type TxnRec struct {
 	ModeUsed    string // 2pc | async | 1pc (from the commit callback info when available)
 	// provisional locks of an open aggressive-locking attempt (current / previous attempt)
 	AggrCur, AggrPrev map[string]uint64
+	StmtFU            uint64 // for-update ts of the current statement attempt
 	// for the request-stream monitor (C04)
 	CommitCallEv       int64  // global event counter just before Commit was called
 	EndEv              int64  // ... just after Commit / Rollback returned (0 = never ended)
